@@ -170,11 +170,13 @@ impl fmt::Display for Ty {
 /// Conversion to the library's type, memoised by node identity so that shared sub-types stay shared.
 pub struct ToFinal {
     memo: HashMap<*const Ty, Arc<Final>>,
+    /// keeps memo keys alive so that addresses are not recycled
+    keep: Vec<T>,
 }
 
 impl ToFinal {
     pub fn new() -> Self {
-        ToFinal { memo: HashMap::new() }
+        ToFinal { memo: HashMap::new(), keep: Vec::new() }
     }
     pub fn conv(&mut self, t: &T) -> Arc<Final> {
         let key = Arc::as_ptr(t);
@@ -195,6 +197,7 @@ impl ToFinal {
             }
         };
         self.memo.insert(key, f.clone());
+        self.keep.push(t.clone());
         f
     }
 }
